@@ -339,8 +339,13 @@ class Ref:
         lookup = {}
         for v, b in n["lookup"]:
             lookup[v] = b
+        mark = len(self.st.read_log)
         ok, v = self.attempt(lambda: self.choosing(lambda: self.ev(disp, o)))
         if not ok:
+            if "default" in n and any(p for _, p in self.st.read_log[mark:]):
+                # the dispatch failed after reading a *present* value; the default's keys do not
+                # mention it (known finding K6, same mechanism as coalesce)
+                self.st.labels.add("coalesce-absorbed-value-failure")
             if "default" in n:
                 self.st.labels.add("switch-default-by-failure")
                 return self.ev(n["default"], o)
@@ -533,10 +538,13 @@ class Ref:
                 raise RFail({("switch",)})
             return None
         disp = {"k": "opt", "key": d["dispatch"]} if isinstance(d["dispatch"], str) else d["dispatch"]
+        mark = len(self.st.read_log)
         ok, v = self.attempt(lambda: self.choosing(lambda: self.ev(disp, e)))
         if not ok:
             if abstract:
                 raise v
+            if any(p for _, p in self.st.read_log[mark:]):
+                self.st.labels.add("coalesce-absorbed-value-failure")
             self.st.labels.add("dispatch-failed-default")
             return None
         if v in lookup:
